@@ -228,13 +228,19 @@ def random_nfa(Sigma: Set[Symbol], n: int) -> NFA:
     return NFA(Q, Sigma, delta, q0, F, epsilon)
 
 
+def _copy_transitions(delta: MutableMapping[Tuple[State, Symbol], Set[State]], N: NFA) -> None:
+    # N.B. the target sets are copied, since the constructions below extend them in place
+    for (q, a), Q1 in N.delta.items():
+        delta[q, a] = set(Q1)
+
+
 def nfa_repetition(N: NFA, id_generator: IdentifierGenerator = IdentifierGenerator()) -> NFA:
     Sigma = N.Sigma
     q0 = State(id_generator.generate('q'))
     Q = N.Q | {q0}
     F = N.F | {q0}
     delta = defaultdict(lambda: set([]))
-    delta.update(N.delta)
+    _copy_transitions(delta, N)
     for q in F:
         delta[q, N.epsilon] |= {N.q0}
     delta[q0, N.epsilon] = {N.q0}
@@ -248,8 +254,8 @@ def nfa_union(N1: NFA, N2: NFA, id_generator: IdentifierGenerator = IdentifierGe
     Q = N1.Q | N2.Q | {q0}
     F = N1.F | N2.F
     delta = defaultdict(lambda: set([]))
-    delta.update(N1.delta)
-    delta.update(N2.delta)
+    _copy_transitions(delta, N1)
+    _copy_transitions(delta, N2)
     delta[q0, N1.epsilon] = {N1.q0, N2.q0}
     return NFA(Q, Sigma, delta, q0, F)
 
@@ -261,8 +267,8 @@ def nfa_concatenation(N1: NFA, N2: NFA) -> NFA:
     Q = N1.Q | N2.Q | {q0}
     F = N2.F
     delta = defaultdict(lambda: set([]))
-    delta.update(N1.delta)
-    delta.update(N2.delta)
+    _copy_transitions(delta, N1)
+    _copy_transitions(delta, N2)
     for q in N1.F:
         delta[q, N1.epsilon] |= {N2.q0}
     return NFA(Q, Sigma, delta, q0, F)
